@@ -79,14 +79,18 @@ pub fn write_elf(d: &mut ElfDesc, rng: &mut Rng) -> Vec<u8> {
     // symbol string table + symbol table
     let mut strtab: Vec<u8> = vec![0];
     let mut symtab: Vec<u8> = Vec::new();
-    for (name, value) in &d.sym {
+    // bindings as a linker lays them out: STB_LOCAL symbols first, sh_info = index of the first non-local one;
+    // ___exit may be local (e.g. after objcopy --localize-symbol), global or weak
+    let nlocal = rng.below(d.sym.len() + 1);
+    for (si, (name, value)) in d.sym.iter().enumerate() {
         let ni = strtab.len() as u32;
         strtab.extend_from_slice(name.as_bytes());
         strtab.push(0);
         be32(&mut symtab, ni);
         be32(&mut symtab, *value);
         be32(&mut symtab, rng.u32() & 0xff);
-        symtab.push(0x12);
+        let bind: u8 = if si < nlocal { 0 } else if rng.chance(1, 4) { 2 } else { 1 };
+        symtab.push((bind << 4) | rng.below(3) as u8);
         symtab.push(0);
         be16(&mut symtab, 1);
     }
@@ -140,7 +144,7 @@ pub fn write_elf(d: &mut ElfDesc, rng: &mut Rng) -> Vec<u8> {
         be32(&mut f, s.off);
         be32(&mut f, s.size);
         be32(&mut f, s.link);
-        be32(&mut f, 0);
+        be32(&mut f, if s.name == ".symtab" { nlocal as u32 } else { 0 });
         be32(&mut f, 1);
         be32(&mut f, s.entsize);
     }
@@ -243,6 +247,15 @@ pub fn gen_desc(k: usize, o: &GenOpts, rng: &mut Rng) -> ElfDesc {
                     }
                 }
             }
+        }
+    }
+    // --- the order of the PT_LOAD headers in the table is the linker's (ascending) two times out of three,
+    //     otherwise arbitrary (the loaded image does not depend on it)
+    if rng.chance(1, 3) {
+        for i in (1..loads.len()).rev() {
+            let j = rng.below(i + 1);
+            loads.swap(i, j);
+            blobs.swap(i, j);
         }
     }
     // --- file offsets: blobs in shuffled order behind the program headers, with padding
